@@ -313,6 +313,33 @@ def parser_checks(run, tb, tmp):
                             viol("route-mismatch", "`%s` and `%s` give different settings: %s" % (conf_lines[0], " ".join(argv), str(d)[:300]), case)
     run.cov["correspondence"]["rows"] = nrows
 
+    # ------------------------------------------------------------------ the documented equivalences (doc/command-options.md), independent of the code's table
+    for variant in ("phonopy", "load"):
+        for flag, tag, docval in tb["doc_pair_values"]:
+            rows = [a for a in tb["argparse"] if a["variants"] & U.VBIT[variant] and flag in [__import__("settings2lean").norm_flag(f) for f in a["flags"]]]
+            if not rows:
+                continue
+            a = rows[0]
+            if a["action"] in ("store_true", "store_false"):
+                cases = [([flag], docval or ".TRUE.")]
+            else:
+                vals = [v for v in U.VALUES.get(tag, []) if not tab.is_bool_text(tag, v)]
+                rng.shuffle(vals)
+                cases = [([flag] + (v.split() if a["nargs"] == "+" else [v]), v) for v in vals[: (4 if thorough else 2)]]
+            for argv, text in cases:
+                conf_lines = ["%s = %s" % (tag.upper(), text)]
+                rf = P.real(variant, lines=conf_lines, argv=[])
+                ro = P.real(variant, lines=None, argv=argv)
+                run.case(("doc-pair", variant, flag, tag, text), nontrivial=True)
+                run.count("oracle documented equivalence", section="oracle")
+                d = rf.diff(ro)
+                if d and docval is not None and all(isinstance(v, list) and all(isinstance(x, str) for x in v) and v[0].lower() == v[1].lower() for v in d.values()):
+                    d = None  # `FC_CALCULATOR = ALM` keeps the spelling of the file, `--alm` writes "alm"; the name is lower-cased where it is used
+                if d and not (rf.kind == "exc" and rf.where == "read_file"):
+                    viol("falsy-numeric-option-dropped" if _is_numeric_zero(tab, tag, text) else "documented-equivalence-fails",
+                         "doc/command-options.md: `%s` is equivalent to `%s`, but `%s` and `%s` give different settings: %s" % (
+                             flag, tag.upper(), " ".join(argv), conf_lines[0], str(d)[:300]), dict(variant=variant, conf=conf_lines, argv=argv, differing=d))
+
     # malformed values: both routes must reject (or both accept)
     for variant in ("phonopy", "load"):
         for tag, texts in sorted(U.MALFORMED.items()):
